@@ -66,6 +66,8 @@ def gen_window(rng, horizon):
 def gen_agent_arm(rng, tier):
     steps = rng.randint(2, 40 if tier == "thorough" else 16)
     agents0 = [{"id": f"a{i}", "v": rng.randint(-3, 5)} for i in range(rng.randint(0, 6))]
+    if rng.random() < 0.02:
+        agents0.append({"id": "timestep", "v": rng.randint(1, 5)})      # trigger of known finding F7 (rare on purpose)
     fresh = [0]
 
     def script(n):
@@ -284,6 +286,7 @@ def run_agent_arm(sc, ctx):
         changed_in_step = []
         collected_in_step = False
         dropped_now = set()
+        f7_expected = []
         for rs in list(ref.q):
             if rs["id"] in dropped_now:
                 continue          # removed earlier in this very timestep: it does not run any more
@@ -310,6 +313,9 @@ def run_agent_arm(sc, ctx):
                 rec = {}
                 if s["ts"]:
                     rec["timestep"] = t
+                    if "timestep" in pop and FUNCS[s["func"]](pop["timestep"]) is not None:
+                        # one flat dict cannot hold both the timestep and the result of an agent called 'timestep'
+                        f7_expected.append((rs["id"], t))
                 for aid, v in pop.items():
                     r = FUNCS[s["func"]](v)
                     if r is not None:
@@ -337,6 +343,9 @@ def run_agent_arm(sc, ctx):
             ref.remove(sid)
         ctx.expect_ok("step", m.execute)
         ctx.sim_time += 1
+        for cid_, t_ in f7_expected:
+            ctx.fail("timestep-entry-lost", f"t={t_} {cid_}: the record cannot hold both the timestep and the result of the agent "
+                                            f"whose id is 'timestep': {cols[cid_].records[-1:]}", finding="F7")
         for cid, c in cols.items():
             got = c.records
             ctx.event("records", cid, t, len(got))
